@@ -33,6 +33,14 @@ type WBCase struct {
 	Def     Defaults  `json:"def"`
 	// Observers registered on the configuration: a change made through write-back is a change of the file like any other
 	Observers int `json:"observers,omitempty"`
+	// Stale: files lying next to the configuration file before the first SetValues (left by an interrupted earlier
+	// write-back, an editor, a backup tool): name = configuration file name with this decoration, body of Size bytes
+	Stale []StaleFile `json:"stale,omitempty"`
+}
+
+type StaleFile struct {
+	Deco string `json:"deco"` // ".tmp" ".bak" "~" ".new" ".swp" ".lock"
+	Size int    `json:"size"`
 }
 
 // effectiveKey is the meaning of the options: excluded keys are not written, the
@@ -128,6 +136,13 @@ func drawWriteBack(t *rapid.T) WBCase {
 	}
 	c.Def = genDefaults().Draw(t, "def")
 	c.Observers = rapid.SampledFrom([]int{0, 0, 1, 2}).Draw(t, "observers")
+	if rapid.IntRange(0, 3).Draw(t, "stale?") == 0 {
+		n := rapid.IntRange(1, 2).Draw(t, "nstale")
+		for i := 0; i < n; i++ {
+			c.Stale = append(c.Stale, StaleFile{Deco: rapid.SampledFrom([]string{".tmp", ".tmp", ".bak", "~", ".new", ".swp", ".lock"}).Draw(t, "deco"),
+				Size: rapid.SampledFrom([]int{0, 7, 300, 5000, 200000}).Draw(t, "stalesize")})
+		}
+	}
 	return c
 }
 
@@ -290,6 +305,13 @@ func runWriteBack(c WBCase) *pbt.Result {
 	for _, o := range observers {
 		o.calls = 0
 	}
+	for _, st := range c.Stale {
+		body := strings.Repeat("stale.key.from.an.earlier.write=1\n", st.Size/34+1)[:st.Size]
+		if err := os.WriteFile(filepath.Join(home, confName+st.Deco), []byte(body), 0644); err != nil {
+			panic(err)
+		}
+		classes["stale-sibling-file:"+st.Deco] = true
+	}
 
 	commentsWithEq := c.File.has("comment", func(l Line) bool { return strings.Contains(l.Text, "=") })
 	if c.File.has("comment", nil) {
@@ -412,7 +434,11 @@ func runWriteBack(c WBCase) *pbt.Result {
 	// leftovers: nothing but the configuration file may remain in the home directory
 	if ents, err := os.ReadDir(home); err == nil {
 		for _, e := range ents {
-			if e.Name() != confName {
+			planted := false
+			for _, st := range c.Stale {
+				planted = planted || e.Name() == confName+st.Deco
+			}
+			if e.Name() != confName && !planted {
 				classes["leftover-file-in-home(not asserted)"] = true
 			}
 		}
@@ -422,7 +448,7 @@ func runWriteBack(c WBCase) *pbt.Result {
 
 var writeBackSpec = pbt.Register(pbt.Spec[WBCase]{
 	Prop: "C18", Name: "write-back",
-	Rule:  "file of 0-10 lines (key lines with blanks around '=', raw or escaped values, empty values; comment lines with and without '=', indented, with trailing blanks; blank lines), options none|prefix|suffix|both and an exclusion list, 1-2 SetValues calls of 0-4 pairs (existing keys, new keys, keys already carrying the prefix, empty value = remove); after each call the file is read with the harness's own properties reader: key->value map == old ∪ new (empty = unset), comment/blank lines byte-identical and all surviving lines in their old order with new keys only appended, no key twice; then a reload must notify each of 0-2 registered observers exactly once when the call changed the file (with the new values visible inside the callback) and make every value of the file visible through all typed getters; comment lines up to 140 000 bytes; non-trivial = at least one pair effectively written to a file that has comment lines",
+	Rule:  "file of 0-10 lines (key lines with blanks around '=', raw or escaped values, empty values; comment lines with and without '=', indented, with trailing blanks; blank lines), options none|prefix|suffix|both and an exclusion list, 1-2 SetValues calls of 0-4 pairs (existing keys, new keys, keys already carrying the prefix, empty value = remove); after each call the file is read with the harness's own properties reader: key->value map == old ∪ new (empty = unset), comment/blank lines byte-identical and all surviving lines in their old order with new keys only appended, no key twice; then a reload must notify each of 0-2 registered observers exactly once when the call changed the file (with the new values visible inside the callback) and make every value of the file visible through all typed getters; comment lines up to 140 000 bytes; one case in four starts with 1-2 stale files next to the configuration file (its name + .tmp/.bak/~/.new/.swp/.lock, 0-200 000 bytes) as an interrupted earlier write or an editor leaves them; non-trivial = at least one pair effectively written to a file that has comment lines",
 	Quick: 6000, Thorough: 600000,
 	Draw: drawWriteBack, Run: runWriteBack,
 })
